@@ -200,9 +200,22 @@ theorem contMeta_cancel (tok call : Val) (c : Bool) (md : List (Bytes × Bytes))
   have h3 := getFirst_litMeta_fw keyCancel isFw_keys.2.2 md h
   cases c <;> simp [continuationMeta, getFirst, h1, h2, h3]
 
+theorem tokenLater_litMeta (k : Bytes) : ∀ (md : List (Bytes × Bytes)), tokenLater k (litMeta md) = false
+  | [] => rfl
+  | kv :: r => by
+    have ih := tokenLater_litMeta k r
+    unfold tokenLater at ih ⊢
+    simp only [litMeta, List.map_cons, List.any_cons, Bool.and_false, Bool.false_or]
+    exact ih
+
 theorem litEntries_litMeta : ∀ (md : List (Bytes × Bytes)), litEntries (litMeta md) = md
   | [] => rfl
-  | kv :: r => by simp [litMeta, litEntries]; exact litEntries_litMeta r
+  | kv :: r => by
+    have ht := tokenLater_litMeta kv.1 r
+    have ih := litEntries_litMeta r
+    show litEntries ((kv.1, Val.lit kv.2) :: litMeta r) = kv :: r
+    simp only [litEntries, ht, ih]
+    rfl
 
 theorem strip_litMeta : ∀ (md : List (Bytes × Bytes)), NoFw md → stripFramework (litMeta md) = litMeta md
   | [], _ => rfl
